@@ -273,4 +273,17 @@ theorem verifiers_exact (univ : List κ) (k : κ) (alg : α) (msg : μ) :
   intro k' _
   simp [verifies, eq_comm]
 
+/-- Trying a signature of key `k` against a list of certificates succeeds iff `k`'s is among them. -/
+theorem any_verifies_exact (L : List κ) (k : κ) (alg : α) (msg : μ) :
+    L.any (fun k' => verifies k' alg msg (⟨k, alg, msg⟩ : Sig κ α μ)) = L.contains k := by
+  induction L with
+  | nil => rfl
+  | cons a l ih =>
+    simp only [List.any_cons, List.contains_cons, ih]
+    congr 1
+    simp only [verifies, decide_true, Bool.and_true]
+    by_cases h : k = a
+    · subst h; simp
+    · simp [h]
+
 end C20
